@@ -46,7 +46,7 @@ def main():
     ap.add_argument('--seed', type=int, default=1)
     a = ap.parse_args()
     only = set(a.only.split(',')) if a.only else None
-    for d in sorted(glob.glob(os.path.join(HERE, 'seeded', '*'))):
+    for d in sorted(glob.glob(os.path.join(HERE, 'seeded', 'C*'))):
         sid = os.path.basename(d)
         if only and sid not in only:
             continue
